@@ -6,7 +6,7 @@ CM="-G Ninja -DCMAKE_BUILD_TYPE=RelWithDebInfo -DDSPLIB_BUILD_TESTS=ON -DCPM_USE
 mkdir -p /tmp/sv; git -C /repo worktree remove --force $wt 2>/dev/null; rm -rf $wt
 git -C /repo worktree add -q $wt HEAD || { echo "RESULT $tag worktree_failed"; exit 1; }
 cd $wt
-cp -r "$src" $wt/SEED
+letter=$(basename "$src"); mkdir -p $wt/OUT; cp -r "$src" $wt/OUT/$letter; ln -s $wt/OUT/$letter $wt/SEED
 cmake -S . -B _build $CM > /dev/null 2>&1 && cmake --build _build -j6 > /dev/null 2>&1 || { echo "RESULT $tag clean_build_failed"; }
 ( cd $wt && timeout 900 bash SEED/demo.sh ) > SEED/confirm_clean.log 2>&1; rc_clean=$?
 git apply SEED/patch.diff 2> SEED/apply.log || { echo "RESULT $tag patch_does_not_apply"; git -C /repo worktree remove --force $wt; exit 1; }
